@@ -43,6 +43,7 @@ def run_lane(ctx, n_cases, which):
                 (stats["patched_classes"] if l["g"] in ("sq", "cube") else stats["native_classes"]).add(l["cls"])
         stats["with_maxpool"] += any(l["k"] == "maxpool" for l in c["layers"])
         stats["affine"] += c["affine"]
+        stats["coinciding_preactivations"] = stats.get("coinciding_preactivations", 0) + bool(c.get("coincide"))
         stats["scaled"] += c["layers"][0]["ws"][1] > 1 or any(l["ws"][1] > 1 for l in c["layers"])
         A, L = c["A"], len(c["x"])
         fx = o["fx"]
